@@ -162,7 +162,10 @@ class Kauri(ClusterMixin, BaseEstimator, ABC):
                               "Switching to linear kernel")
                 kernel = pairwise_kernels(X, metric="linear")
             else:
-                kernel = y
+                kernel = check_array(y, input_name="Precomputed kernel")
+                if kernel.shape[0] != kernel.shape[1] or kernel.shape[0] != len(X):
+                    raise ValueError(f"The precomputed kernel should be a square matrix of size {len(X)}, "
+                                     f"got shape {kernel.shape}")
         else:
             kernel = pairwise_kernels(X, metric=self.kernel)
         return kernel
